@@ -195,8 +195,18 @@ class Sandbox:
             so = open(path, "rb").read()
         return rcode, so, se
 
-    def align(self, file, n, minf, filt, am, mask, nogap, threads=1):
-        args = ["align", self.path(file), "--min-freq", fstr(minf), "--filter", filt, "--threads", str(threads)]
+    def align(self, file, n, minf, filt, am, mask, nogap, threads=1, minf_text=None):
+        """minf_text: the --min-freq value as typed (any number of decimals, e.g. repr(2/3)); the event then carries the small
+        rational (t - 1/2)/n with t = ceil(n x value) computed exactly - the same threshold, in integers TLC can hold."""
+        fp_differs = fp_ceil_differs(n, minf) if minf_text is None else False
+        if minf_text is not None:
+            exact = fractions.Fraction(minf_text)
+            t = -((-n * exact.numerator) // exact.denominator)
+            minf = [0, 1] if t <= 0 else [2 * t - 1, 2 * n]
+            fp_differs = math.ceil(n * float(minf_text)) != t
+            if fp_differs:
+                return None         # the double product rounds across an integer: exact and f64 ceilings differ, not decided here
+        args = ["align", self.path(file), "--min-freq", minf_text or fstr(minf), "--filter", filt, "--threads", str(threads)]
         if am:
             args.append("--filter-ambig-as-missing")
         if mask:
@@ -205,7 +215,7 @@ class Sandbox:
             args.append("--no-gap-only-sites")
         rcode, so, se = self.run_out(args)
         ctx = {"file": file, "minf": minf, "filter": filt, "am": am, "mask": mask, "nogap": nogap,
-               "fp_ceil_differs": fp_ceil_differs(n, minf)}
+               "fp_ceil_differs": fp_differs, "minf_text": minf_text or ""}
         if rcode != 0:
             return self.emit("align", ctx, ok=False, names=[], seqs=[], err=se.decode(errors="replace")[-200:])
         names, seqs = vlib.parse_fasta_text(so.decode())
